@@ -6,6 +6,7 @@ import (
 	"fmt"
 	"math"
 	"testing"
+	"time"
 
 	customtransport "github.com/uber-go/tally/v4/m3/customtransports"
 	m3thrift "github.com/uber-go/tally/v4/m3/thrift/v2"
@@ -363,7 +364,7 @@ func TestC16(t *testing.T) {
 	pbt.Main(t, pbt.Prop[Case]{
 		ID: "C16", Name: "thrift",
 		Rule: "rapid-generated sequences of 1..4 structures (single Metric, MetricBatch, full one-way emitMetricBatchV2 message) written through ONE reused calculating protocol and ONE reused encoding protocol (Compact or Binary): batches of 0..6 (occasionally 14/15/16/127/128/129/500) metrics, 0..16 tags, strings of arbitrary bytes up to 1 KiB incl. varint-length boundaries, int64/float64 extremes, optional fields present/absent/empty, sequence ids at varint boundaries. Oracles: decode(encode(x)) == x (nil == empty list), calc(x) == len(encode(x)), calc(placeholder with maximal own-kind value and timestamp) >= len(encode(real values)). Non-trivial: a batch with >=2 metrics of different tag counts, or a value needing the maximal varint. Distinct: FNV-64 of the case JSON.",
-		Gen:  gen, Run: run,
+		Gen:  gen, Run: run, HangAfter: 20 * time.Second,
 	})
 }
 
